@@ -90,3 +90,24 @@ Print Assumptions C03_code_positions_wf.
 Print Assumptions C03_ctor_rejects_zero.
 Print Assumptions C03_redis_bounds.
 Print Assumptions C03_redis_refuted_beyond_2p53.
+
+(* Redis, remaining clauses: exactly the true count while one distinct element was updated, and 0
+   for every element of a new sketch *)
+From GX.Proofs Require RedisCMSMerge.
+Theorem C03_redis_exact_single : forall (cpos : N -> N -> bytes -> list N) rows cols,
+  (forall x, length (cpos rows cols x) = N.to_nat rows) ->
+  (forall x p, In p (cpos rows cols x) -> p < cols) ->
+  forall s key meta h0 s1 m0 hist x,
+  rcms_new s rows cols key meta = (Ok h0, s1) -> cms_new rows cols = Ok m0 -> total hist < B53 ->
+  only_elem hist x ->
+  exists s' h', rrun cpos s1 h0 hist = (Ok h', s') /\ rcms_count cpos s' h' x = Ok (true_count hist x).
+Proof. exact RedisCMSMerge.redis_count_exact_single. Qed.
+Print Assumptions C03_redis_exact_single.
+Theorem C03_redis_empty : forall (cpos : N -> N -> bytes -> list N) rows cols,
+  (forall x, length (cpos rows cols x) = N.to_nat rows) ->
+  (forall x p, In p (cpos rows cols x) -> p < cols) ->
+  forall s key meta h0 s1 m0 x,
+  rcms_new s rows cols key meta = (Ok h0, s1) -> cms_new rows cols = Ok m0 ->
+  rcms_count cpos s1 h0 x = Ok 0.
+Proof. exact RedisCMSMerge.redis_count_empty. Qed.
+Print Assumptions C03_redis_empty.
